@@ -186,7 +186,7 @@ class Emitter:
         if ty["k"] == "tpath":
             n = ty["segs"][-1][0]
             if n == "Self": return self.self_type
-            if n == "Box" and ty["segs"][-1][1]:
+            if n in ("Box", "Arc", "Rc") and ty["segs"][-1][1]:
                 return self.type_name(ty["segs"][-1][1][0])
             return n
         if ty["k"] == "tdyn":
@@ -220,7 +220,7 @@ class Emitter:
                 return f"(List {self.lean_type(a)})"
             if name in ("HashMap", "AHashMap", "BTreeMap"): return f"(List ({self.lean_type(args[0])} × {self.lean_type(args[1])}))"
             if name == "Option": return f"(Option {self.lean_type(args[0])})"
-            if name == "Box": return self.lean_type(args[0])
+            if name in ("Box", "Arc", "Rc"): return self.lean_type(args[0])
             if name == "Result": return self.lean_type(args[0]) if args else "Unit"
             if name == "Cursor": return "Rs.Cursor"
             if name in tm: return tm[name]
@@ -1151,11 +1151,37 @@ class Emitter:
                 return [f"Res.panic {self.site(line, n)}"]
             raise Unsupported(f"{self.file}:{line}: macro {n}! as statement")
         if k == "assign": return self.stmt_assign(e)
+        if k == "mcall" and self.entry_chain(e["recv"]) is not None:
+            # `map.entry(k).or_insert_with_key(..).method(args);` with a `&mut self` method of the value type: ensure the
+            # entry, take it out, call the method on it as on a local, write it back
+            mp, key, dflt = self.entry_chain(e["recv"])
+            pk, kt = self.val(key)
+            kk = self.fresh("k")
+            pre = pk + [f"let {kk} := {kt}"]
+            pd, dt = self.entry_default(dflt, kk)
+            pm, cur = self.val(mp)
+            pre += pd + pm + self.assign_place(mp, f"(Rs.mapEnsure {self.atom(cur)} {kk} {self.atom(dt)})", line)
+            mt = self.typeof(mp)
+            if mt is None or mt["k"] != "tpath" or len(mt["segs"][-1][1]) != 2:
+                raise Unsupported(f"{self.file}:{line}: method call through a map entry of unknown value type")
+            ent = self.fresh("ent")
+            pm2, cur2 = self.val(mp)
+            pre += pm2 + [f"let mut {ent} ← Rs.mapIdx {self.atom(cur2)} {kk} {self.site(line, 'entry')}"]
+            self.declare(ent, mut=True, ty=mt["segs"][-1][1][1])
+            pre += self.stmt_expr(N("mcall", line, recv=N("path", line, segs=[ent]), name=e["name"], targs=e.get("targs"), args=e["args"]))
+            pm3, cur3 = self.val(mp)
+            return pre + pm3 + self.assign_place(mp, f"(Rs.mapModify {self.atom(cur3)} {kk} (fun _ => {ent}))", line)
         if k == "if": return self.stmt_if(e)
         if k == "iflet": return self.stmt_iflet(e)
         if k == "match": return self.match_lines(e, "stmt")
         if k == "for": return self.stmt_for(e)
         if k == "while": return self.stmt_while(e)
+        if k == "whilelet":
+            # `while let PAT = E { body }`  ==  `while true { match E { PAT => body, _ => break } }`
+            ln = e["line"]
+            m = N("match", ln, e=e["e"], arms=[N("arm", ln, pat=e["pat"], guard=None, body=e["body"]),
+                                              N("arm", ln, pat=N("pwild", ln), guard=None, body=N("block", ln, stmts=[N("expr", ln, e=N("break", ln, e=None))], tail=None))])
+            return self.stmt_while(N("while", ln, c=N("bool", ln, v=True), body=N("block", ln, stmts=[N("expr", ln, e=m)], tail=None)))
         if k == "return": return self.stmt_return(e)
         if k == "break":
             if not self.loop_stack: raise Unsupported("break outside loop")
@@ -1728,7 +1754,7 @@ class Emitter:
             return [f"return {self.wrap_ret(None) or '()'}"]
         k = e["k"]
         if k in ("return",): return self.stmt_return(e)
-        if k in ("for", "while", "assign") or (k == "macro" and (e["name"] in LOG_MACROS or e["name"].startswith("assert"))):
+        if k in ("for", "while", "whilelet", "assign") or (k == "macro" and (e["name"] in LOG_MACROS or e["name"].startswith("assert"))):
             return self.stmt_expr(e) + self.tail(None)
         if not self.has_value_ret() and k in ("mcall", "call", "if", "iflet", "match") and not self.ret_is_result:
             return self.stmt_expr(e) + self.tail(None)
